@@ -14,5 +14,7 @@ def run(ctx):
         return obs
     obs += cp.rpx_rules(ctx, 'C10')
     obs += cp.int_rule(ctx, 'C10')
+    # a number keeps its value only if it stays a token of its own: the blank in front of it follows cssparser's separator rule (C08.sep)
+    obs += cp.separator_condition_rule(ctx, 'C10')
     obs += [o for o in cp.rules_rule(ctx, 'C10') if '/not-a-rule-list/' in o['key'] or '/lookup-key' in o['key'] or '/anchor' in o['key']]
     return obs
